@@ -59,6 +59,9 @@ RULES = [
  ('unbounded range follows its bounded range in iterative', 'C06', 'differs-after-set_value/unbounded (SUM(A:A) ignored later writes in iterative mode)'),
  ('below an unbounded range does not leave', 'C09', 'retry-returns-a-value/iterative/*/under-unbounded-reference'),
  ('evaluated to "" is read as ""', 'C08', 'output-differs (the untrimmed xlsx twin was stale): a cached "" read as "no stored result" stopped the reset (C01 mechanism, found by the C08 thorough tier)'),
+ ('showing the first cell of a range gives 0', 'C01', 'stale-value (a formula =A1:C1 over an empty first cell had the value None and blocked the reset)'),
+ ('first cell of an array formula over a number', 'C05', 'range-from-array-formula-corner-over-other-cells'),
+ ('range address follows set_value in iterative', 'C06', 'differs-after-set_value/input-or-range (evaluate of a range address stale in iterative mode)'),
  ('an array and an error value', 'C13', 'array-formula-member-not-pointwise/array-with-error-valued-scalar'),
 ]
 
